@@ -56,3 +56,24 @@ def uidExpunge (b : SBox) (set : List Elem) : SBox :=
 def append (b : SBox) (nextUid : Nat) (flags : List Nat) (cid date : Nat) : SBox := b ++ [⟨nextUid, flags, cid, date⟩]
 
 end Pymap.Spec
+
+namespace Pymap.Spec
+open Pymap.Seq
+
+/-- the messages a set addresses, in mailbox order -/
+def addressedMsgs (b : SBox) (byUid : Bool) (set : List Elem) : SBox := filterIdx (addressed b byUid set) 0 b
+
+/-- re-number a list of copies with consecutive UIDs from `next` -/
+def renumber : Nat → SBox → SBox
+  | _, [] => []
+  | n, m :: r => { m with uid := n } :: renumber (n + 1) r
+
+/-- COPY: the destination gains a copy of every addressed message — same flags, date and content — under the next UIDs, in order -/
+def copy (src dst : SBox) (nextUid : Nat) (byUid : Bool) (set : List Elem) : SBox :=
+  dst ++ renumber nextUid (addressedMsgs src byUid set)
+
+/-- the source after MOVE: the addressed messages are gone -/
+def moveSrc (src : SBox) (byUid : Bool) (set : List Elem) : SBox :=
+  filterIdx (fun i m => !(addressed src byUid set i m)) 0 src
+
+end Pymap.Spec
